@@ -14,6 +14,7 @@ EXPLANATION = (
     "send is delayed iff send_time > now. "
     '(R5 also: the gate whose owner receives the message is the gate the walk last entered; R7 also: sending on a gate handle (GateRef / GateRefWeak) sends on exactly that gate.) '
     '(R8) Gate::path_iter hands out the unbounded hop-by-hop walker (no take/filter, no hop counter). '
+    "(R4 also: the already-connected return writes nothing; R9, shared with C07.R4: the idle path of a hop's channel.) "
     "Decides these necessary conditions only; not arrival-time sums over all chain shapes.")
 ASSUMPTIONS = ["gates are only wired through Gate::connect (slot table private)"]
 
